@@ -400,4 +400,14 @@ def member_map(h):
         out.append({"folder": fi, "size": size, "crc": crc, "offset": off, "index": k})
         off = off + size
         k = k + 1
+    if st is not None:
+        used = 0
+        for m in out:
+            if m["folder"] is not None:
+                used = used + 1
+        total = 0
+        for cnt in st["sub"]["counts"]:
+            total = total + cnt
+        if total != used:
+            raise FormatError("number of substreams differs from the number of non-empty files")
     return out
